@@ -2,6 +2,8 @@
 
 Three families, all generated and decided by TLC from spec/CPP.tla:
   lex   lines of characters around pp-numbers (0xE+X is one token) lexed by the spec's maximal-munch lexer, then macro-replaced
+  file  small source files: directives and invocations with comments (also spanning lines), new-lines and digraphs at every
+        position; lexed, cut into lines and processed by the spec (translation phases 3 and 4)
   mac   macro definitions + invocation text, expected token sequence by Prosser's algorithm with hide sets
   cond  nestings of #if/#ifdef/#ifndef/#elif/#else/#endif with a marker in every group, expected markers
   if    #if expressions over the 64-bit boundary grid, expected truth / value / signedness (spec/lib/W64cpp.tla)
@@ -28,7 +30,10 @@ _Q = [
     ("mac2", "CPP_mc2.cfg", 4, None, None),      # 2 macros (object-like / 1 parameter), lists <= 2, any text <= 3: exhaustive
     ("mac2b", "CPP_mc2b.cfg", 2, None, None),    # 2 macros, lists <= 2 over {x,f,g,(}, balanced text <= 4 (f ( g ) ...): exhaustive
     ("macstr", "CPP_str_mc.cfg", 2, None, None), # stringification with literals and variable spacing: exhaustive
+    ("lex2", "CPP_lex2_mc.cfg", 1, None, None),  # u8 u U L followed by quotes, digits, letters (literal prefix or identifier): exhaustive <= 4 chunks
+    ("lex3", "CPP_lex3_mc.cfg", 1, None, None),  # % : < > # sequences (digraphs, %:%x) in text, as argument, under #: exhaustive <= 4 chunks
     ("lex", "CPP_lex_mc.cfg", 2, None, None),    # pp-number texts of <= 4 chunks next to a macro name, plain / argument / # / ##: exhaustive
+    ("file", "CPP_file_mc.cfg", 4, None, None),  # 13 source-file skeletons x every placement of spaces, comments (also spanning lines) and new-lines
     ("macsim", "CPP_sim.cfg", 2, 2500, 60),      # 2 macros, lists <= 4, text <= 6: random walks
     ("cond", "CPP_cond_mc.cfg", 1, None, None),  # conditional nestings, 5 directive lines, depth 3: exhaustive
     ("if1", "CPP_if_mc.cfg", 4, None, None),     # one operator over an 18-value grid: exhaustive
@@ -45,6 +50,7 @@ TIERS = {
         [("macsimp", "CPP_simp.cfg", 4, 40000, 60), ("condsim", "CPP_cond_sim.cfg", 2, 30000, 40)],
         [("condt", "CPP_cond_t.cfg", 8, None, None)],
         [("lext", "CPP_lex_t.cfg", 8, None, None), ("lexsim", "CPP_lex_sim.cfg", 2, 20000, 12)],
+        [("lex2t", "CPP_lex2_t.cfg", 6, None, None), ("lex3t", "CPP_lex3_t.cfg", 5, None, None)],
         [("if1t", "CPP_if_t.cfg", 16, None, None), ("ifsimt", "CPP_if_sim.cfg", 6, 60000, 60)],
     ],
 }
@@ -66,6 +72,9 @@ K_HANG = "cpp:rescan:painted_arg_reexpanded_past_list_end"
 K_EOR2 = "cpp:rescan:call_args_past_two_list_ends"
 K_EORWS = "cpp:rescan:space_before_list_end_hides_call"
 K_DOTDOT = "cpp:lex:dot_dot_unget_order"
+K_U8ID = "cpp:lex:u8_identifier_first_char"
+K_PCP = "cpp:lex:percent_colon_percent_unget_order"
+K_CALL0NL = "cpp:call:newline_in_empty_parens"
 
 
 def build_c2m():
@@ -127,6 +136,9 @@ def render(c, i):
             L.append("#undef " + n)
     elif c["fam"] == "lex":
         L += [m(c["src"]), "VERIFEND_%d" % i]
+    elif c["fam"] == "file":
+        L += m(c["src"]).replace("~", "\n").rstrip("\n").split("\n")
+        L += ["VERIFEND_%d" % i] + ["#undef " + n for n in FILE_NAMES]
     elif c["fam"] == "if":
         e = c["full"] if c.get("paren") else c["min"]
         L += ["#if " + e, "T", "#else", "F", "#endif",
@@ -139,10 +151,13 @@ def render(c, i):
     return L
 
 
-PRELUDE = {"if": "#define D 2u\n#define E (-1)\n", "mac": "", "cond": "",
+FILE_NAMES = ("A", "F", "L", "D", "H", "Z", "S")     # macros the skeletons of the file family define
+INC_NAME, INC_TEXT = "c09inc.h", "inc_tok\n"          # the header of the #include skeleton (written next to every batch file)
+PRELUDE = {"if": "#define D 2u\n#define E (-1)\n", "mac": "", "cond": "", "file": "",
            "lex": "#define X 1\n#define S(x) #x\n#define T(x) S(x)\n#define C(x,y) x ## y\n#define I(x) x\n"}
 
-TOK = re.compile(r'\s+|([A-Za-z_][A-Za-z_0-9]*|\.?[0-9](?:[eEpP][+-]|[A-Za-z_0-9.])*|\.\.\.|\+\+|--|"(?:[^"\\\n]|\\.)*"|\'(?:[^\'\\\n]|\\.)*\'|##|.)')
+TOK = re.compile(r'\s+|((?:u8|u|U|L)?"(?:[^"\\\n]|\\.)*"|(?:u|U|L)?\'(?:[^\'\\\n]|\\.)*\'|[A-Za-z_][A-Za-z_0-9]*'
+                 r'|\.?[0-9](?:[eEpP][+-]|[A-Za-z_0-9.])*|%:%:|\.\.\.|\+\+|--|->|<<|>>|<:|:>|<%|%>|%:|&&|\|\||##|.)')
 
 
 def lex(text, c2m):
@@ -180,6 +195,11 @@ def run_file(c2m, cases, base, tag, keep=False):
     os.makedirs(d, exist_ok=True)
     fn = os.path.join(d, "%s_%d.c" % (tag, base))
     starts = []
+    inc = os.path.join(d, INC_NAME)
+    if cases[0]["fam"] == "file" and not os.path.exists(inc):
+        with open(inc + ".tmp%d" % id(cases), "w") as f:
+            f.write(INC_TEXT)
+        os.replace(inc + ".tmp%d" % id(cases), inc)
     with open(fn, "w") as f:
         pre = PRELUDE[cases[0]["fam"]]
         f.write(pre)
@@ -262,6 +282,12 @@ def classify(c, exp, got, st1):
     glue = got is not None and got != exp and despaced(got) == despaced(exp)
     if "lex_dot_dot" in ft and st1 != "timeout":
         return K_DOTDOT
+    if "lex_u8_identifier" in ft and st1 != "timeout":
+        return K_U8ID
+    if "lex_percent_colon_percent" in ft and st1 != "timeout":
+        return K_PCP
+    if "call0_newline_in_parens" in ft and got == exp and "too many args" in st1:
+        return K_CALL0NL
     if st1 == "timeout":
         if "call_past_list_end_painted_arg" in ft:
             return K_HANG
